@@ -13,7 +13,7 @@ META = {
             "a let/use statement the initialiser is visited in the old scope before the new scope is allocated, the binders go into the "
             "new scope, and later statements see it; S4 name lookup walks expression scopes innermost-first, then module values, then "
             "built-ins; the module scope puts functions/constants/variants into values, types/aliases into types, and imports only "
-            "public declarations. One obligation per variant / call site. S6-S8 qualified values, import namespaces (see DESIGN). S9 no castable node consists of exactly one node of its own kind (lib/shape.py: children of every finish_node site), so AstPtr = (kind, range) identifies a binder; S10 a NameRef under MODULE_NAME_REF is resolved as a module before the value namespace is tried; S11 the pattern of a let / use statement is lowered whatever its right-hand side is. S12 lower_expr_stmt never hands its statement list to a nested call of itself; S13 a module resolution for the base of `base.label` is recorded only after the base's type was tested. S15 a qualified type name never falls back to the unqualified lookup. S14 module_name builds the ModuleMap keys positionally (no component is compared with a directory name).",
+            "public declarations. One obligation per variant / call site. S6-S8 qualified values, import namespaces (see DESIGN). S9 no castable node consists of exactly one node of its own kind (lib/shape.py: children of every finish_node site), so AstPtr = (kind, range) identifies a binder; S10 a NameRef under MODULE_NAME_REF is resolved as a module before the value namespace is tried; S11 the pattern of a let / use statement is lowered whatever its right-hand side is. S12 lower_expr_stmt never hands its statement list to a nested call of itself; S13 a module resolution for the base of `base.label` is recorded only after the base's type was tested. S15 a qualified type name never falls back to the unqualified lookup. S14 module_name builds the ModuleMap keys positionally (no component is compared with a directory name). S20 once the base of `base.label` resolved as an imported module the module resolution is recorded on every path (not only when the member resolves).",
     "explanation": "Decides the construction shape that Gleam's scoping rules require (innermost binder wins, a let binder is not visible "
                    "in its own initialiser, clause/lambda/use bindings do not escape, values and types are separate namespaces). That "
                    "the classifier maps every syntactic position to the right lookup is behavioural and not decided.",
@@ -61,6 +61,10 @@ def regions(fn, t, avoid=None):
 VISITS = (SC + "traverse_expr", SC + "traverse_expr_stmts", SC + "add_bindings")
 
 
+SELECTOR = re.compile(r"Option::<T>::(unwrap_or|unwrap_or_else|or|or_else|xor|map_or|map_or_else|get_or_insert|get_or_insert_with)$|"
+                      r"Result::<T, E>::(unwrap_or|unwrap_or_else|or|or_else)$|cmp::(min|max|Ord::min|Ord::max)")
+
+
 def fields_read(fn, blocks, variant, F=None):
     """names of the fields of `variant` whose value flows (through refs, iteration, projections) into a recursive
     visit call, or into an iterator adaptor whose closure makes such a call, inside the given blocks"""
@@ -74,6 +78,8 @@ def fields_read(fn, blocks, variant, F=None):
                     return nx.get("n", str(nx["f"]))
         return None
     taint = {}      # local -> set(field names)
+    either = set()  # locals that hold one of several children (a selection), not all of them
+    sites = {}
     order = sorted(blocks)
     changed = True
     visited = set()
@@ -107,6 +113,12 @@ def fields_read(fn, blocks, variant, F=None):
                     if not src <= taint.get(l, set()):
                         taint.setdefault(l, set()).update(src)
                         changed = True
+                    # one of several children, not all of them: a second assignment that brings another child, or a copy of such a value
+                    sites.setdefault(l, {})[(b, id(s_))] = frozenset(src)
+                    if (len(set(sites[l].values())) > 1 and not s_["place"]["p"]) or any(p["l"] in either for p in places):
+                        if l not in either:
+                            either.add(l)
+                            changed = True
             t = fn.term(b)
             if t["k"] == "call":
                 src = set()
@@ -118,6 +130,17 @@ def fields_read(fn, blocks, variant, F=None):
                             src.add(sd)
                         src |= taint.get(p["l"], set())
                 c = callee(t) or callee_def(t) or ""
+                mixed = any(op_place(a) and op_place(a)["l"] in either for a in t["args"])
+                if src and (mixed or (len(src) > 1 and SELECTOR.search(c))):
+                    # `a.unwrap_or(b)`, `a.or(b)`: the result is one of the children; visiting it visits neither for sure
+                    if c in VISITS:
+                        continue
+                    l = t["dest"]["l"]
+                    if l not in either or not src <= taint.get(l, set()):
+                        either.add(l)
+                        taint.setdefault(l, set()).update(src)
+                        changed = True
+                    continue
                 if src:
                     if c in VISITS:
                         visited |= src
@@ -952,6 +975,47 @@ def statement_blocks_and_field_access(F, res):
     res.ob("S13", "field-access/record-before-module", "`base.label` records a module resolution for its base only after the base's inferred type was "
            "tested (a local record of the name of an imported module is not taken for the module)", ok, where=g.loc(ins[0][1]["ln"]) if ins else g.loc(),
            how="module_resolution inserts: %d, each dominated by a test of the base's type (%d tests on Ty): %s" % (len(ins), len(tests), ok))
+    module_qualifier_is_always_recorded(F, res)
+
+
+def module_qualifier_is_always_recorded(F, res, rule="S20"):
+    """S20: Semantics::resolve_nameref recognises the `module` of `module.member` inside a function body through
+    BodyCtx.module_resolution only; without an entry the qualifier is looked up as a plain name and becomes whatever function,
+    constant or local has the name of the module. The entry therefore depends on the qualifier alone: once the base of a field
+    access resolved as an imported module (Resolver::resolve_module returned Some), every path to a return passes the insert -
+    whether the member exists in that module is a different question (it may not exist *yet*)."""
+    g = F.fn("ide::ty::infer::InferCtx::infer_expr_inner")
+    d = FL.Defs(g)
+    ins = []
+    for b, t in g.calls():
+        if FL.short(callee(t) or callee_def(t) or "").endswith("::insert"):
+            o = d.origin_op(t["args"][0])
+            if o.get("k") == "field" and any(isinstance(e, dict) and e.get("n") == "module_resolution" for e in o.get("proj", [])):
+                ins.append(b)
+    n = 0
+    rets = g.return_blocks()
+    for b, t in g.calls():
+        if not (callee(t) or "").endswith("Resolver::resolve_module") or t.get("target") is None:
+            continue
+        # the switch on the Option this call returned
+        some = None
+        for sb in sorted(g.reachable()):
+            st = g.term(sb)
+            if st["k"] != "switch":
+                continue
+            l = op_local(st["op"])
+            o = d.origin(l) if l is not None else {}
+            if o.get("k") == "rv" and o["rv"]["k"] == "discr" and not o["rv"]["place"]["p"] and o["rv"]["place"]["l"] == t["dest"]["l"]:
+                some = [tg for v, tg in st["targets"] if v == 1] or ([st["otherwise"]] if [v for v, _ in st["targets"]] == [0] else [])
+                break
+        if not some or not (some[0] in ins or g.can_reach(some[0], ins)):
+            continue
+        n += 1
+        leak = some[0] not in ins and g.can_reach(some[0], rets, avoid=ins)
+        res.ob(rule, "field-access/module-recorded/%d" % (n - 1), "once the base of `base.label` resolved as an imported module, the module resolution of the base is "
+               "recorded on every path to return (it does not wait for the member to resolve)", not leak, where=g.loc(t["ln"]),
+               how="a return is reachable from the Some edge of resolve_module without the insert into module_resolution: %s" % leak)
+    res.floor("resolve_module sites of the inferencer that record a module qualifier", n, 1)
 
 
 def module_names_are_positional(F, res, rule="S14"):
